@@ -93,6 +93,11 @@ through a third; the other live objects of a history go through Api as well).  e
                       very end (= before the paragraph separator of iter_paragraphs)        or a lengthened first token; parse and dump
                                                                                       forced through file objects; evidence
                                                                                       aligned_cases, traces_aligned)
+  size tokens       lengths 1..18 (every pair), 19, 20, 25 and -- reaching and exceeding every       R T (H: a size of 40 appended / put in place
+  (the width          documented width -- 15/16, 17/15, 40, 80/3, 3/80, 16/40, 17/80, 64/17, 65/1,       in the quick histories of Dsc, Release/apt,
+   clause)            1/81, 33/32, 40/40 (same record twice) in every class x behaviour x field;         Release/dak); a Release/apt-ftparchive size
+                      recorded traces: 14..128 around 16 / 64 / 80, in-place growth to 17..80            LONGER than 16 is a verdict: written in full
+                                                                                      after one blank (evidence sizes_beyond_width)
   not operations of the statement: isSingleLine / isMultiLine / mergeFields (deprecated aliases of
   helpers that do not touch structured fields), get_gpg_info, the relation / version mixins.
 """
@@ -106,11 +111,11 @@ import core
 
 MANIFEST = dict(
     technique="TLA+ spec (MultiValued: class tables, Build/Dump/Parse/Load, width rule) model-checked by TLC over every subset of every class's structured fields; CASE lines replayed into Dsc/Changes/BuildInfo/PdiffIndex/Release in both directions; recorded life cycles validated by TLC (TraceMultiValued)",
-    text="TLC explores, to a fixed point, every class x Release.size_field_behavior x EVERY subset of the class's structured fields (PdiffIndex: 2^14) x record lists of <= 2 records (sizes of 1..18 characters, single-line form included) and checks DumpTotal, RecordsRoundTrip, SubFieldNames and the width rule (16, or the longest size of the field); the life cycle is a history: after a dump a record may be appended or a size replaced in place, a list re-assigned, a field deleted, and every later dump is checked against the current records; records are positions (identical records stay independent, also in parsed paragraphs), size_field_behavior is state of one object (other live objects are interleaved, a fresh Release is at the default); the public re-ordering operations of the paragraph (sort_fields with the default key or a key function, order_first/last/before/after) are an action of the model that may occur before the first dump and between dumps and changes neither records nor option nor the case-insensitivity of the key set (the class's own lower-case look-ups, obj[f], del obj[f], f in obj in any spelling keep finding every present field: KeysFold); calls on the living object that are REFUSED (order_before/order_after relative to an absent optional field, an absent item or itself, order_first/last, del, [] of an absent field) or fail through an object the caller supplies (a key function that raises or returns incomparable keys, a file object whose write() raises at the k-th call, a file / iterator of lines that raises or ends early while another paragraph is made) are an action of the model too (Refused: nothing changes, in particular every present field is still written by the next dump -- KeysListed, RefusedIsAtomic) and occur before the first dump and between dumps; spec-level negative controls (IterateAllFields = the pre-78e977a KeyError, CacheWidths, SharedEqualRecords, ClassLevelOption, StoreBeforeValidate, ReorderStoresPlainKeys, RefusedUnlinksFirst, SplitEverySpace) must make TLC report a violation. Each explored paragraph is printed as a CASE line with the expected layout and replayed with concretized tokens: build from records -> dump() -> parse, and parse the expected text -> dump() -> parse; recorded life cycles with up to 6 records, arbitrary token lengths and white space are validated by TLC against the same actions.",
-    note="Sub-field tables are transcribed from the module docstring (BuildInfo is not listed there: taken from deb-buildinfo(5)/the class). Unspecified: Release/dak with a single-line field (TypeError today), width of a Release/apt-ftparchive field holding a size longer than 16. Separator blanks other than the size padding are diagnostic. Quick tier replays a seed-dependent 1/24 sample of the PdiffIndex subsets (all are model-checked), thorough replays every subset. Trusted: TLC, the layout projection (regex over dump()), the concretizer.",
+    text="TLC explores, to a fixed point, every class x Release.size_field_behavior x EVERY subset of the class's structured fields (PdiffIndex: 2^14) x record lists of <= 2 records (sizes of 1..18 characters and of 19, 20, 25, 33, 40, 64, 65, 80, 81: below, at and beyond every documented width, single-line form included) and checks DumpTotal, RecordsRoundTrip, SubFieldNames and the width rule (16, or the longest size of the field; a size LONGER than the 16 of apt-ftparchive is written in full directly after its separator, the other lines of the field stay padded to 16); the life cycle is a history: after a dump a record may be appended or a size replaced in place, a list re-assigned, a field deleted, and every later dump is checked against the current records; records are positions (identical records stay independent, also in parsed paragraphs), size_field_behavior is state of one object (other live objects are interleaved, a fresh Release is at the default); the public re-ordering operations of the paragraph (sort_fields with the default key or a key function, order_first/last/before/after) are an action of the model that may occur before the first dump and between dumps and changes neither records nor option nor the case-insensitivity of the key set (the class's own lower-case look-ups, obj[f], del obj[f], f in obj in any spelling keep finding every present field: KeysFold); calls on the living object that are REFUSED (order_before/order_after relative to an absent optional field, an absent item or itself, order_first/last, del, [] of an absent field) or fail through an object the caller supplies (a key function that raises or returns incomparable keys, a file object whose write() raises at the k-th call, a file / iterator of lines that raises or ends early while another paragraph is made) are an action of the model too (Refused: nothing changes, in particular every present field is still written by the next dump -- KeysListed, RefusedIsAtomic) and occur before the first dump and between dumps; spec-level negative controls (IterateAllFields = the pre-78e977a KeyError, CacheWidths, SharedEqualRecords, ClassLevelOption, StoreBeforeValidate, ReorderStoresPlainKeys, RefusedUnlinksFirst, SplitEverySpace) must make TLC report a violation. Each explored paragraph is printed as a CASE line with the expected layout and replayed with concretized tokens: build from records -> dump() -> parse, and parse the expected text -> dump() -> parse; recorded life cycles with up to 6 records, arbitrary token lengths and white space are validated by TLC against the same actions.",
+    note="Sub-field tables are transcribed from the module docstring (BuildInfo is not listed there: taken from deb-buildinfo(5)/the class). Unspecified: Release/dak with a single-line field (TypeError today). The width is a minimum width: a Release/apt-ftparchive size longer than 16 is a verdict too (no padding for it, 16 for the others; since round 7). Separator blanks other than the size padding are diagnostic. Quick tier replays a seed-dependent 1/24 sample of the PdiffIndex subsets (all are model-checked), thorough replays every subset. Trusted: TLC, the layout projection (regex over dump()), the concretizer.",
     design="5 (C12)")
 
-WORKERS = min(8, core.NCPU)
+WORKERS = min(8, core.NCPU, int(os.environ.get("VERIF_MAX_WORKERS") or 8))
 HASHES = {"md5sum", "md5", "sha1", "sha256", "sha512"}
 FREE = string.ascii_letters + string.digits + ":/~+._-"
 ALNUM = string.ascii_letters + string.digits
@@ -836,6 +841,18 @@ BOUNDARY_LENS = [1, 2, 7, 8, 9, 15, 16, 17, 31, 32, 33, 63, 64, 65, 71, 72, 73, 
 BOUNDARY_COUNTS = [9, 10, 11, 16, 17, 31, 32, 33, 99, 100, 101, 255, 256, 257]
 
 
+# lengths of size tokens that reach and exceed every documented width (16; the longest size of the field): one
+# below / at / one above 16, far beyond, and around 64 / 80 (so that the padding of a short size next to it does too)
+SIZE_LENS_WIDE = [14, 15, 16, 17, 18, 19, 25, 32, 33, 40, 63, 64, 65, 79, 80, 81, 96, 128]
+
+
+def size_len(rng, maxsize):
+    """length of a size token of a recorded life cycle: 1..maxsize, or (maxsize = 0) drawn around / beyond the widths"""
+    if maxsize:
+        return rng.randint(1, maxsize)
+    return rng.choice(SIZE_LENS_WIDE) if rng.random() < 0.6 else rng.randint(1, 16)
+
+
 def size_token(rng, n):
     """n digits; regularly a boundary number (2**31, 2**63, 10**18 ...) with or without leading zeros"""
     if rng.random() < 0.4:
@@ -1447,7 +1464,7 @@ def gen_recipe(rng, tables, big=0):
         form = "multi"
         if direction == "given" and rng.random() < 0.25 and not (big and fi == 0):
             form, nrec = "single", 1
-        maxsize = rng.choice([3, 8, 16, 18, 25])
+        maxsize = rng.choice([3, 8, 16, 18, 25, 0, 0])
         longnames = rng.random() < 0.1 and nrec <= 33
         recs, lines = [], []
         for r in range(nrec):
@@ -1459,7 +1476,7 @@ def gen_recipe(rng, tables, big=0):
             rec = []
             for s in subs:
                 if s == "size":
-                    ln = rng.randint(1, maxsize)
+                    ln = size_len(rng, maxsize)
                 elif s.lower() in HASHES:
                     ln = {"md5sum": 32, "md5": 32, "sha1": 40, "sha256": 64, "sha512": 128}[s.lower()] if rng.random() < 0.8 else rng.randint(1, 12)
                 else:
@@ -1572,23 +1589,23 @@ def gen_mutations(rng, table, fields, cname):
         subs = table[f - 1]["subs"]
 
         def new_rec(maxsize):
-            return [make_token(rng, s, rng.randint(1, maxsize) if s == "size" else rng.randint(1, 20), False, 0) for s in subs]
+            return [make_token(rng, s, size_len(rng, maxsize) if s == "size" else rng.randint(1, 20), False, 0) for s in subs]
 
         def dup_pos(recs):
             """a position whose record also stands at another position, if there is one"""
             d = [i for i, r in enumerate(recs) if recs.count(r) > 1]
             return rng.choice(d) if d and rng.random() < 0.7 else rng.randrange(len(recs))
         if op == "append":
-            rec = list(rng.choice(cur[f]["recs"])) if rng.random() < 0.3 else new_rec(rng.choice([2, 9, 18, 25]))
+            rec = list(rng.choice(cur[f]["recs"])) if rng.random() < 0.3 else new_rec(rng.choice([2, 9, 18, 25, 0]))
             cur[f]["recs"].append(rec)
             muts.append({"op": "append", "f": f, "rec": rec})
         elif op == "setsize":
             r = dup_pos(cur[f]["recs"])
-            t = make_token(rng, "size", rng.choice([1, 2, 5, 9, 10, 12, 16, 18, 19, 25]), False, 0)
+            t = make_token(rng, "size", rng.choice([1, 2, 5, 9, 10, 12, 15, 16, 17, 18, 19, 25, 40, 64, 65, 80]), False, 0)
             cur[f]["recs"][r][subs.index("size")] = t
             muts.append({"op": "setsize", "f": f, "r": r + 1, "tok": t})
         elif op == "assign":
-            recs = [new_rec(rng.choice([3, 18])) for _ in range(rng.randint(1, 4))]
+            recs = [new_rec(rng.choice([3, 18, 0])) for _ in range(rng.randint(1, 4))]
             if rng.random() < 0.3:
                 recs.append(list(recs[0]))
             cur[f] = {"form": "multi", "recs": recs}
@@ -1842,6 +1859,15 @@ def corrupt(t, how):
                 if fl["form"] == "multi" and all(line[1]["len"] <= 16 for line in fl["lines"]):
                     fl["lines"][0][1]["pad"] += 1
                     return t
+        if how == "overwide" and e["op"] == "dump" and t["cls"] == "Release" and t["beh"] != "dak" \
+                and not any(x["op"] == "setbeh" for x in evs):
+            # pretend a size LONGER than the 16 of apt-ftparchive is preceded by more than the separating blank
+            for fl in e["fields"]:
+                if fl["form"] == "multi":
+                    for line in fl["lines"]:
+                        if line[1]["len"] > 16 and line[1]["pad"] == 1:
+                            line[1]["pad"] = 1 + max(1, 80 - line[1]["len"])
+                            return t
         if how == "keyerror" and e["op"] == "dump":
             e["res"], e["fields"] = "KeyError", []
             del evs[i + 1:]
@@ -1896,7 +1922,7 @@ def corrupt(t, how):
 def validate(ctx, traces, with_controls=True):
     controls = []
     if with_controls:
-        for how in ("swap", "name", "drop", "pad", "keyerror", "lostfield", "lostmutation", "stalewidth", "aliased",
+        for how in ("swap", "name", "drop", "pad", "overwide", "keyerror", "lostfield", "lostmutation", "stalewidth", "aliased",
                     "unpadded_after_reorder", "lost_after_reorder", "lost_after_refused"):
             for t in traces:
                 c = corrupt(t, how)
@@ -1989,11 +2015,12 @@ def run(ctx):
         "D3: record lists are non-empty, a record has one token per documented sub-field, tokens contain no white space = no code point str.split() splits on (the 29 code points with str.isspace(), incl. NBSP, U+2003, U+3000; U+200B and U+FEFF are allowed); tokens are otherwise arbitrary Unicode (non-NFC text and its precomposed twin as different tokens, non-BMP, zero-width characters), compared by code point",
         "rejected operations: an illegal size_field_behavior whose exception is caught must leave the option unchanged (if it is accepted instead: unspecified); a record with a newline / white-space token is outside the domain -- executed before a re-assignment or deletion of the field, its outcome is ignored and must leave no trace",
         "size dimension (notes/SIZE_STRESS.md): the model is abstract in the number of records and in the length of digests/names; replayed cases are also run with their records replicated to 9..257 (a few: 1000) records, identical and fresh copies, and with tokens of boundary lengths up to 4097; recorded traces contain up to 1000 records, sizes of 1..25 digits (2**31, 2**63, 10**18, leading zeros), names up to 1025 characters, identical records",
-        "model: <= 2 records per field in the closed configurations (sizes 1..18 characters), histories of <= 2 mutations (append / size in place / assign / delete / one re-ordering of the fields / one refused call, also before the first dump) with a dump after each; up to 6 records, arbitrary lengths, up to 3 mutations and any number of re-orderings and refused calls in the recorded traces",
+        "model: <= 2 records per field in the closed configurations (sizes 1..18 characters and up to 81), histories of <= 2 mutations (append / size in place / assign / delete / one re-ordering of the fields / one refused call, also before the first dump) with a dump after each; up to 6 records, arbitrary lengths, up to 3 mutations and any number of re-orderings and refused calls in the recorded traces",
         "re-ordering the fields (sort_fields, order_first/last/before/after) between building / parsing and dumping is inside the domain: the paragraph is still 'a paragraph built from records' / 'a parsed paragraph'; the ORDER of the fields in the dump is never a verdict (C09); key functions are total and their results comparable; field names are asked for in any spelling (look-ups are documented to be case-insensitive)",
         "refused calls (error paths, notes/SIZE_STRESS.md part 5) are inside the domain: the statement quantifies over 'every subset of the class's structured fields being present' and 'a parsed paragraph' / 'a paragraph built from records', and a call that raises (a re-ordering relative to an ABSENT optional field, an absent item, itself; deletion / look-up of an absent field; sort_fields with a faulting key function; dump(fd) with a faulting fd; a faulting source of lines for another paragraph) is caught by the caller and leaves such a paragraph: the model's step changes nothing, the next dump must write every present field with the same records; what the refused call itself raises (or whether it is accepted) is never a verdict",
         "file objects (notes/SIZE_STRESS.md part 4): the expected result does not depend on the kind of file object nor on where the block boundaries fall; every kind in FILE_KINDS_IN / FILE_KINDS_OUT is used in every run, aligned cases put a line end at / next to byte offsets 2**9..2**17",
-        "unspecified (executed, any outcome accepted): Release/dak with a single-line field; width of a Release/apt-ftparchive field holding a size of more than 16 characters",
+        "unspecified (executed, any outcome accepted): Release/dak with a single-line field",
+        "sizes longer than the documented width are inside the domain ('any list of whitespace-free records'; 'the field 16 characters long regardless'): the width is a minimum width, a longer size token is written in full after ONE blank and the other sizes of the field are padded to 16 (apt-ftparchive) / to the longest size whatever its length (dak, PdiffIndex); sizes of 15/16/17, 40, 64/65, 80/81 characters are shapes of the model, the recorded traces draw 14..128",
         "blanks other than the padding of the size column of Release/PdiffIndex multi-line fields are diagnostic (spec_drift), not verdicts",
         "concretization of tokens is sampled (seeded); trusted: TLC, the regex projection of dump(), the concretizer",
     ]
@@ -2089,6 +2116,15 @@ def run(ctx):
                           "states": r_small.distinct + r_pdiff.distinct, "generated": r_small.generated + r_pdiff.generated,
                           "fields_per_class": {k: len(v) for k, v in tables.items()}}
     ctx.extra["negative_controls_traces"] = ncontrols
+    # sizes longer than 16 characters (= longer than the column of Release/apt-ftparchive; the longest size of dak / PdiffIndex)
+    ctx.extra["sizes_beyond_width"] = {
+        "cases": stats.get("beyond_width", {}),
+        "traces": {k: sum(1 for t in traces if t["cls"] + ("" if t["beh"] == "-" else "/" + t["beh"]) == k and any(
+            e["op"] == "dump" and any(fl["form"] == "multi" and any(line[1]["len"] > 16 for line in fl["lines"]) for fl in e["fields"])
+            for e in t["events"])) for k in ("Release/apt-ftparchive", "Release/dak", "PdiffIndex")}}
+    if not ctx.violations and (not ctx.extra["sizes_beyond_width"]["cases"].get("Release/apt-ftparchive")
+                               or not ctx.extra["sizes_beyond_width"]["traces"]["Release/apt-ftparchive"]):
+        raise core.MachineryError("no Release/apt-ftparchive field with a size longer than its column was exercised: %r" % ctx.extra["sizes_beyond_width"])
 
     ctx.traces += len(traces)
     ctx.evaluations += len(traces)
@@ -2142,6 +2178,13 @@ def replay_cases(ctx, r, tables, nconc, stats):
         stats["per_mode"][case["m"]] = stats["per_mode"].get(case["m"], 0) + 1
         key = case["c"] + ("" if case["b"] == "-" else "/" + case["b"])
         stats["per_class"][key] = stats["per_class"].get(key, 0) + 1
+        if case["c"] in ("Release", "PdiffIndex"):
+            longest = max([n for F in [case["F"]] + [st[1] for st in case.get("H", []) if st[0] == "dump"]
+                           for fld in F if fld[2] == "multi" for line in fld[6]
+                           for (pad, tid, n), nm in zip(line, fld[5]) if nm == "size"] or [0])
+            if longest > 16:
+                bw = stats.setdefault("beyond_width", {})
+                bw[key] = bw.get(key, 0) + 1
         # quick tier: one concretization per plain case (canonical / random alternately), two per history
         cs = range(nconc) if nconc > 1 and (case.get("H") or not quick) else [idx % 2]
         for c in cs:
